@@ -194,7 +194,8 @@ def main(argv=None):
     known, _fixed = load_known(prop)
     rc = 0
     lines = []
-    os.makedirs(os.path.join(ROOT, 'replays', prop), exist_ok=True)
+    REPLAYS = os.environ.get('VERIF_REPLAY_DIR', os.path.join(ROOT, 'replays'))
+    os.makedirs(os.path.join(REPLAYS, prop), exist_ok=True)
     new_keys = []
     for key in sorted(viol):
         # shortest replay first = easiest to explain
@@ -210,7 +211,7 @@ def main(argv=None):
             print('BROKEN-CHECK: violation %s did not reproduce deterministically (first seen as: %s)' % (key, v['msg'][:500]))
             print(json.dumps(jsonable([o1, o2]))[:2000])
             return 2
-        path = os.path.join(ROOT, 'replays', prop, digest([key, v['replay']]) + '.json')
+        path = os.path.join(REPLAYS, prop, digest([key, v['replay']]) + '.json')
         with open(path, 'w') as f:
             json.dump({'property': prop, 'key': key, 'msg': v['msg'],
                        'replay': v['replay'], 'observation': jsonable(o1)}, f, indent=1)
@@ -254,8 +255,9 @@ def main(argv=None):
         'violations': len(new_keys),
     }
     ev['coverage'].update(tot.extra)
-    os.makedirs(os.path.join(ROOT, 'evidence'), exist_ok=True)
-    with open(os.path.join(ROOT, 'evidence', prop + '.json'), 'w') as f:
+    EVDIR = os.environ.get('VERIF_EVIDENCE_DIR', os.path.join(ROOT, 'evidence'))
+    os.makedirs(EVDIR, exist_ok=True)
+    with open(os.path.join(EVDIR, prop + '.json'), 'w') as f:
         json.dump(jsonable(ev), f, indent=1, sort_keys=True)
     for l in lines:
         print(l)
